@@ -5,7 +5,7 @@
 //   reset <t32|t64> <mode> <now>       new node; <now> is the virtual time AFTER open + address claim settled
 //   dev <i> <src> <unique> <manu> <devinst> <func> <class> <sysinst> <indgrp>
 //   prod <i> <n2kver> <prodcode> <hexModelID> <hexSwCode> <hexModelVersion> <hexSerialCode> <cert> <len>
-//   conf <hexManInfo> <hexInstDesc1> <hexInstDesc2> | txlist <i> <pgn>.. | rxlist <i> <pgn>.. | addhandler <pgn>
+//   conf|confp <hexManInfo> <hexInstDesc1> <hexInstDesc2> (confp: given as PROGMEM strings) | txlist <i> <pgn>.. | rxlist <i> <pgn>.. | addhandler <pgn>
 // ops (action):
 //   gf <src> <dst> <prio> <len> <hexdata>   a reassembled 126208 message (hexdata = all bytes the frames carry)
 //   t <ms> | poll | getDevInfo <d> | getInstDesc | getHeartbeat <d> | readResetFlags
@@ -31,7 +31,7 @@ struct DevCfg {
 };
 struct Cfg {
   std::string fl; int mode = 1; uint64_t now = 0; std::vector<DevCfg> devs; std::string man, d1, d2;
-  std::vector<unsigned long> handlers; bool built = false;
+  std::vector<unsigned long> handlers; bool built = false; bool progmem = false;
 };
 static Cfg cfg;
 static Node *N = nullptr;
@@ -101,6 +101,8 @@ static void build() {
   delete N; keepH.clear(); N = new Node(); keep.clear();
   int n = (int)cfg.devs.size(); if (n < 1) { C.fail("harness:no-device", "no dev op before the first action"); exit(3); }
   N->SetDeviceCount(n);
+  if (!cfg.devs[0].hasProd) {   // the library's documented default product information (DefProductInformation)
+    DevCfg &z = cfg.devs[0]; z.ver = 2101; z.code = 666; z.mid = "Arduino N2k->PC"; z.sw = "1.0.0.0"; z.mv = "1.0.0"; z.sc = "00000001"; z.cert = 0; z.len = 1; }
   for (int i = 0; i < n; i++) {
     DevCfg &d = cfg.devs[i];
     N->SetDeviceInformation(d.unique, d.func, d.cls, d.manu, d.ind, i);
@@ -109,7 +111,10 @@ static void build() {
     if (d.hasTx) { keep.push_back(d.tx); keep.back().push_back(0); N->ExtendTransmitMessages(keep.back().data(), i); }
     if (d.hasRx) { keep.push_back(d.rx); keep.back().push_back(0); N->ExtendReceiveMessages(keep.back().data(), i); }
   }
-  N->SetConfigurationInformation(cfg.man.c_str(), cfg.d1.c_str(), cfg.d2.c_str());
+  // confp: the application gave the strings with SetProgmemConfigurationInformation (copied to RAM by the first command that writes one)
+  static std::string km, k1, k2; km = cfg.man; k1 = cfg.d1; k2 = cfg.d2;
+  if (cfg.progmem) N->SetProgmemConfigurationInformation(km.c_str(), k1.c_str(), k2.c_str());
+  else N->SetConfigurationInformation(km.c_str(), k1.c_str(), k2.c_str());
   N->SetMode((tNMEA2000::tN2kMode)cfg.mode, cfg.devs[0].src);
   for (int i = 0; i < n; i++) N->SetN2kSource(cfg.devs[i].src, i);
   N->EnableForward(false);
@@ -288,11 +293,16 @@ static void checkConfMsg(const OutMsg &m) {
 // (Acknowledge, or the requested PGN) is its answer and is judged then; only if nothing arrives within ANSWER_BOUND_MS of
 // polling is it unanswered. (The library itself delays the address claim that answers a 60928 request.)
 static const int64_t ANSWER_BOUND_MS = 1000;
-struct Pending { bool active = false; Req q; unsigned reqSrc = 0; bool bc = false, demanded = false; int64_t since = 0; long line = 0; };
-static std::vector<Pending> pend;
+// Several requests may be pending on one device at a time as long as they name different PGNs: an Acknowledge echoes the PGN
+// and a positive answer carries it, so each answer finds its request. Only a second request for the SAME PGN makes the older
+// one unjudgeable (it is dropped, its late answer tolerated).
+struct Pending { Req q; unsigned reqSrc = 0; bool bc = false, demanded = false; int64_t since = 0; long line = 0; };
+typedef std::map<unsigned long, Pending> PendMap;    // key: PGN the request names (0xFFFFFF when the message is too short to name one)
+static std::vector<PendMap> pend;
+static unsigned long keyOf(const Req &q) { return q.havePgn ? q.pgn : 0xFFFFFFUL; }
 typedef std::map<unsigned long, int64_t> Served;   // PGN -> start of the window in which (more of) it may arrive
 static std::vector<Served> lastServed;      // further messages of a served PGN may trail (e.g. the second PGN list)
-static void resetOracle(size_t n) { pend.assign(n, Pending()); lastServed.assign(n, Served()); }
+static void resetOracle(size_t n) { pend.assign(n, PendMap()); lastServed.assign(n, Served()); }
 
 static void checkClaimName(const OutMsg &m) {
   int d = devOfAddr(m.src);
@@ -382,8 +392,8 @@ static void judge(size_t d, const Req &q, unsigned reqSrc, bool bc, const std::v
 
 // nothing came out yet for q on device d: keep it pending (what its effects will be is unknown until the answer shows)
 static void defer(size_t d, const Req &q, unsigned reqSrc, bool bc, bool demanded) {
-  if (pend[d].active) C.count("pending_overlapped");
-  pend[d].active = true; pend[d].q = q; pend[d].reqSrc = reqSrc; pend[d].bc = bc; pend[d].demanded = demanded; pend[d].since = (int64_t)g_now; pend[d].line = C.opline;
+  Pending &p = pend[d][keyOf(q)];
+  p.q = q; p.reqSrc = reqSrc; p.bc = bc; p.demanded = demanded; p.since = (int64_t)g_now; p.line = C.opline;
   C.count(demanded ? "answer_pending" : "broadcast_watch");
   if (q.fc == 1 && q.pgn == 60928UL) { sh[d].devValid = false; sh[d].mayClaim = true; expDev = -1; }
   if (q.fc == 1 && q.pgn == 126998UL) { confValid = false; expInst = -1; }
@@ -391,21 +401,23 @@ static void defer(size_t d, const Req &q, unsigned reqSrc, bool bc, bool demande
 }
 
 // messages that answer a pending request are taken out of `out` and judged; returns what is left
-static std::vector<OutMsg> routeLate(const std::vector<OutMsg> &out, int skipDev) {
+static std::vector<OutMsg> routeLate(const std::vector<OutMsg> &out) {
   std::vector<OutMsg> rest; size_t n = cfg.devs.size();
-  std::vector<std::vector<const OutMsg *>> la(n), lp(n);
+  std::vector<std::map<unsigned long, std::pair<std::vector<const OutMsg *>, std::vector<const OutMsg *>>>> got(n);
   for (auto &m : out) {
     int d = devOfAddr(m.src);
-    if (d >= 0 && d != skipDev && pend[d].active) {
-      const Req &q = pend[d].q;
-      if (m.pgn == 126208UL) { la[d].push_back(&m); continue; }
-      if (q.fc == 0 && q.havePgn && m.pgn == q.pgn) { lp[d].push_back(&m); continue; }
+    if (d >= 0 && !pend[d].empty()) {
+      if (m.pgn == 126208UL && m.pl.size() >= 4) {
+        unsigned long e = m.pl[1] | (m.pl[2] << 8) | ((unsigned long)m.pl[3] << 16);
+        if (pend[d].count(e)) { got[d][e].first.push_back(&m); continue; }
+      } else if (pend[d].count(m.pgn) && pend[d][m.pgn].q.fc == 0) { got[d][m.pgn].second.push_back(&m); continue; }
     }
     rest.push_back(m);
   }
-  for (size_t d = 0; d < n; d++) if (!la[d].empty() || !lp[d].empty()) {
-    C.count("late_answer"); pend[d].active = false;
-    judge(d, pend[d].q, pend[d].reqSrc, pend[d].bc, la[d], lp[d]);
+  for (size_t d = 0; d < n; d++) for (auto &kv : got[d]) {
+    Pending p = pend[d][kv.first]; pend[d].erase(kv.first);
+    C.count("late_answer");
+    judge(d, p.q, p.reqSrc, p.bc, kv.second.first, kv.second.second);
   }
   return rest;
 }
@@ -420,10 +432,11 @@ static void unsolicited(const std::vector<OutMsg> &rest, const char *where) {
   }
 }
 static void checkDeadline() {
-  for (size_t d = 0; d < pend.size(); d++) if (pend[d].active && (int64_t)g_now - pend[d].since >= ANSWER_BOUND_MS) {
-    const Req &q = pend[d].q;
-    if (pend[d].demanded) C.fail("C09:unanswered:fc" + std::to_string(q.fc) + (isDedicated(q) ? ":" + std::to_string(q.pgn) : std::string()), "request of op %ld for PGN %lu: no answer within %lld ms of polling", pend[d].line, q.pgn, (long long)((int64_t)g_now - pend[d].since));
-    pend[d].active = false;
+  for (size_t d = 0; d < pend.size(); d++) for (auto it = pend[d].begin(); it != pend[d].end();) {
+    const Pending &p = it->second; const Req &q = p.q;
+    if ((int64_t)g_now - p.since < ANSWER_BOUND_MS) { ++it; continue; }
+    if (p.demanded) C.fail("C09:unanswered:fc" + std::to_string(q.fc) + (isDedicated(q) ? ":" + std::to_string(q.pgn) : std::string()), "request of op %ld for PGN %lu: no answer within %lld ms of polling", p.line, q.pgn, (long long)((int64_t)g_now - p.since));
+    it = pend[d].erase(it);
   }
 }
 
@@ -435,14 +448,15 @@ static void oracleGf(unsigned reqSrc, unsigned dst, const std::vector<unsigned c
   C.count("fc_" + std::to_string(q.fc > 7 ? 7 : q.fc));
   if (!nodeMode()) { if (!out0.empty()) C.fail("C09:answer-in-listen-mode", "%zu messages", out0.size()); return; }
   bool asks = (q.fc == 0 || q.fc == 1 || q.fc == 3 || q.fc == 5) && (bc ? q.fc == 0 : target >= 0);
-  // a device that is asked now gives up an older pending request (its answer could not be told apart)
-  // (a request for a served PGN that produced nothing yet may still be answered: such a message is tolerated for the rest of its window)
-  if (asks) for (size_t d = 0; d < n; d++) if ((bc || (int)d == target) && pend[d].active) {
-    pend[d].active = false; C.count("pending_overlapped");
-    if (pend[d].q.fc == 0 && isDedicated(pend[d].q)) lastServed[d][pend[d].q.pgn] = pend[d].since;
+  // a device that is asked now about the SAME PGN gives up the older pending request (its answer could not be told apart;
+  // if that one was a request for a served PGN, a message with it is tolerated for the rest of its window)
+  if (asks) for (size_t d = 0; d < n; d++) if ((bc || (int)d == target) && pend[d].count(keyOf(q))) {
+    const Pending &o = pend[d][keyOf(q)]; C.count("pending_overlapped");
+    if (o.q.fc == 0 && isDedicated(o.q)) lastServed[d][o.q.pgn] = o.since;
+    pend[d].erase(keyOf(q));
   }
   // answers to requests still pending on OTHER devices may surface in this op
-  std::vector<OutMsg> out = routeLate(out0, -1);
+  std::vector<OutMsg> out = routeLate(out0);
   auto leftover = [&](const std::vector<OutMsg> &v, const char *w) { unsolicited(v, w); };
   if (!bc && target < 0) { std::vector<OutMsg> r; for (auto &m : out) { if (m.pgn == 60928UL) r.push_back(m); else C.fail("C09:answered-foreign", "request for address %u answered with PGN %lu", dst, m.pgn); } leftover(r, "foreign"); return; }
   auto invalidateAll = [&]() { for (auto &s : sh) { s.devValid = s.hbValid = false; } confValid = false; expDev = expInst = -1; };
@@ -498,7 +512,7 @@ static void exec(const std::string &line0);
 static void flushPending() {
   if (!N || !cfg.built || !nodeMode()) return;
   for (int guard = 0; guard < 130; guard++) {
-    bool any = false; for (auto &p : pend) if (p.active && p.demanded) any = true;
+    bool any = false; for (auto &pm : pend) for (auto &kv : pm) if (kv.second.demanded) any = true;
     if (!any) return;
     exec("t 10"); exec("poll");
   }
@@ -528,7 +542,7 @@ static void exec(const std::string &line0) {
   if (w[0] == "prod" && w.size() == 10 && !cfg.built && num(1) < cfg.devs.size()) {
     DevCfg &d = cfg.devs[num(1)]; d.hasProd = true; d.ver = num(2); d.code = num(3); d.mid = cs(bytesStr(unhex(w[4])), 32); d.sw = cs(bytesStr(unhex(w[5])), 32); d.mv = cs(bytesStr(unhex(w[6])), 32); d.sc = cs(bytesStr(unhex(w[7])), 32); d.cert = num(8); d.len = num(9);
     C.out("ok"); return; }
-  if (w[0] == "conf" && w.size() == 4 && !cfg.built) { cfg.man = cs(bytesStr(unhex(w[1])), 70); cfg.d1 = cs(bytesStr(unhex(w[2])), 70); cfg.d2 = cs(bytesStr(unhex(w[3])), 70); C.out("ok"); return; }
+  if ((w[0] == "conf" || w[0] == "confp") && w.size() == 4 && !cfg.built) { cfg.progmem = w[0] == "confp"; cfg.man = cs(bytesStr(unhex(w[1])), 70); cfg.d1 = cs(bytesStr(unhex(w[2])), 70); cfg.d2 = cs(bytesStr(unhex(w[3])), 70); C.out("ok"); return; }
   if ((w[0] == "txlist" || w[0] == "rxlist") && w.size() >= 2 && !cfg.built && num(1) < cfg.devs.size()) {
     DevCfg &d = cfg.devs[num(1)]; std::vector<unsigned long> l; for (size_t i = 2; i < w.size(); i++) l.push_back(num(i));
     if (w[0] == "txlist") { d.tx = l; d.hasTx = true; } else { d.rx = l; d.hasRx = true; } C.out("ok"); return; }
@@ -551,7 +565,7 @@ static void exec(const std::string &line0) {
     N->sent.clear(); N->ParseMessages();
     std::vector<OutMsg> out = reassemble(N->sent); N->sent.clear();
     C.outs(msgsStr(out));
-    if (nodeMode()) { unsolicited(routeLate(out, -1), "poll"); checkDeadline(); }
+    if (nodeMode()) { unsolicited(routeLate(out), "poll"); checkDeadline(); }
     else if (!out.empty()) C.fail("C09:answer-in-listen-mode", "%zu messages", out.size());
     return;
   }
@@ -594,8 +608,8 @@ static void exec(const std::string &line0) {
 
 // ------------------------------------------------------------------------------------------------ generators
 static void put(std::vector<unsigned char> &v, uint32_t x, int bytes) { for (int i = 0; i < bytes; i++) v.push_back((unsigned char)(x >> (8 * i))); }
-static void gf(unsigned src, unsigned dst, const std::vector<unsigned char> &p, int lenOverride = -1, unsigned prio = 3) {
-  flushPending();
+static void gf(unsigned src, unsigned dst, const std::vector<unsigned char> &p, int lenOverride = -1, unsigned prio = 3, bool flush = true) {
+  if (flush) flushPending();
   unsigned len = lenOverride >= 0 ? (unsigned)lenOverride : (unsigned)p.size(); if (len > 223) len = 223;
   std::vector<unsigned char> d = p; d.resize(carried(len), 0xff);
   char b[64]; snprintf(b, sizeof b, "gf %u %u %u %u ", src, dst, prio, len);
@@ -721,9 +735,17 @@ static void commandExperiments(Rng &R) {
       auto q = reqHdr(60928UL, 0xffffffff, 0xffff, 3); q.push_back(3); fieldValue(R, 60928UL, 3, (int)d, true, q); q.push_back(4); fieldValue(R, 60928UL, 4, (int)d, true, q); q.push_back(8); fieldValue(R, 60928UL, 8, (int)d, true, q);
       gf(S, A, q); readBack((int)d);
     }
+    // 60928: boundary value bytes for each commanded field (all ones, zero, the field's mask and its neighbours, reserved bits set)
+    { const unsigned vals[] = {0xff, 0x00, 0x07, 0x08, 0x1f, 0x20, 0xf8, 0xe0, 0xf0, 0x0f, 0xfe, 0x7f};
+      for (unsigned f : {3u, 4u, 8u}) for (unsigned v : vals) {
+        { auto p0 = cmdHdr(60928UL, 8, 1); p0.push_back((unsigned char)f); p0.push_back((unsigned char)(v ^ 0x55)); gf(S, A, p0); }   // move away first, so that every value is a change
+        auto p = cmdHdr(60928UL, 8, 1); p.push_back((unsigned char)f); p.push_back((unsigned char)v); gf(S, A, p); readBack((int)d);
+      }
+    }
     // 126998: descriptions 1 / 2 / both, ASCII and UCS-2, lengths 0..70, then read back through a request
+    // (the first command writes ONE description only: the other one must survive the first write)
     for (int k = 0; k < 10; k++) {
-      int which = 1 + (int)R.below(3); bool ucs = R.chance(1, 4);
+      int which = k == 0 ? 1 + (int)R.below(2) : 1 + (int)R.below(3); bool ucs = R.chance(1, 4);
       auto p = cmdHdr(126998UL, R.chance(2, 3) ? 8 : (unsigned)R.below(16), which == 3 ? 2 : 1);
       size_t maxl = ucs ? 35 : 70;
       if (which & 1) { p.push_back(1); varstr(p, randStr(R, maxl), ucs); }
@@ -753,6 +775,35 @@ static void commandExperiments(Rng &R) {
       auto p = reqHdr(126993UL, iv, off, R.chance(1, 8) ? (unsigned)R.range(1, 5) : 0); gf(S, A, p); readBack((int)d);
     }
     { auto p = cmdHdr(126993UL, 8, 0); gf(S, A, p); readBack((int)d); }
+  }
+}
+
+// histories of several requests inside the library's answer-delay window: every ordered pair (and random triples) of requests
+// for DIFFERENT PGNs to one device in the same millisecond, then fine-grained polling; every one of them must get its answer
+static void burstExperiments(Rng &R, bool triples) {
+  for (size_t d = 0; d < cfg.devs.size(); d++) {
+    unsigned A = cfg.devs[d].src, S = pickReqSrc(R);
+    auto make = [&](int k) -> std::vector<unsigned char> {
+      switch (k) {
+        case 0: return reqHdr(60928UL, 0xffffffff, 0xffff, 0);
+        case 1: { auto p = cmdHdr(60928UL, 8, 1); p.push_back(R.chance(1, 2) ? 3 : 4); p.push_back((unsigned char)R.below(256)); return p; }
+        case 2: return reqHdr(126996UL, 0xffffffff, 0xffff, 0);
+        case 3: return reqHdr(126998UL, 0xffffffff, 0xffff, 0);
+        case 4: return reqHdr(126464UL, 0xffffffff, 0xffff, 0);
+        case 5: return reqHdr(126993UL, (uint32_t)R.range(1000, 60000), 0xffff, 0);
+        case 6: return reqHdr(130000UL, 0xffffffff, 0xffff, 0);
+        default: { auto p = cmdHdr(126998UL, 8, 1); p.push_back(1); varstr(p, randStr(R, 30)); return p; }
+      }
+    };
+    auto settle = [&]() { for (int i = 0; i < 4; i++) { exec("t 1"); exec("poll"); } readBack((int)d); };
+    for (int i = 0; i < 8; i++) for (int j = 0; j < 8; j++) if (i != j && !(i <= 1 && j <= 1) && !((i == 3 || i == 7) && (j == 3 || j == 7))) {
+      gf(S, A, make(i)); gf(S, A, make(j), -1, 3, false); settle();
+    }
+    for (int t = 0; t < (triples ? 60 : 6); t++) {
+      int a = (int)R.below(8), b, c; do b = (int)R.below(8); while (b == a || (a <= 1 && b <= 1) || ((a == 3 || a == 7) && (b == 3 || b == 7)));
+      do c = (int)R.below(8); while (c == a || c == b || ((a <= 1 || b <= 1) && c <= 1) || ((a == 3 || a == 7 || b == 3 || b == 7) && (c == 3 || c == 7)));
+      gf(S, A, make(a)); if (R.chance(1, 2)) exec("t 1"); gf(S, A, make(b), -1, 3, false); if (R.chance(1, 3)) { exec("t 1"); exec("poll"); } gf(S, A, make(c), -1, 3, false); settle();
+    }
   }
 }
 
@@ -820,8 +871,8 @@ static void newNode(Rng &R, const char *flavor, int ndev, int mode = -1) {
   unsigned base = (unsigned)R.range(1, 150);
   for (int i = 0; i < ndev; i++) {
     unsigned src = i == 0 ? base : base + 3 + 25 * (unsigned)(i - 1) + (unsigned)R.below(20);
-    snprintf(b, sizeof b, "dev %d %u %lu %u %u %u %u %u %u", i, src, (unsigned long)R.below(0x200000), (unsigned)R.below(0x800), (unsigned)R.below(256), (unsigned)R.below(256), (unsigned)R.below(128), (unsigned)R.below(16), (unsigned)R.below(8)); exec(b);
-    if (i == 0 || R.chance(2, 3)) {
+    snprintf(b, sizeof b, "dev %d %u %lu %u %u %u %u %u %u", i, src, (unsigned long)R.below(0x200000), (unsigned)R.below(0x800), (unsigned)R.below(256), (unsigned)R.below(255) /* 255 = "keep" in SetDeviceInformation */, (unsigned)R.below(128), (unsigned)R.below(16), (unsigned)R.below(8)); exec(b);
+    if (i == 0 ? !R.chance(1, 6) : R.chance(2, 3)) {
       int v = (k + i) % 4; std::string mid = mids[v], sw = sws[(v + i) % 4], mv = mvs[v], sc = scs[(v + 2 * i) % 4];
       if (i) { mid += "#2"; if (mid.size() > 32) mid = mid.substr(0, 30) + "#2"; }
       snprintf(b, sizeof b, "prod %d %u %u ", i, (unsigned)R.range(0, 0xfffe), (unsigned)R.below(0x10000)); std::string l = b;
@@ -831,9 +882,11 @@ static void newNode(Rng &R, const char *flavor, int ndev, int mode = -1) {
     if (R.chance(1, 2)) { snprintf(b, sizeof b, "txlist %d 127250 129029%s", i, R.chance(1, 2) ? " 130900" : ""); exec(b); }
     if (R.chance(1, 2)) { snprintf(b, sizeof b, "rxlist %d 127258 129025", i); exec(b); }
   }
-  std::string man = "Verif Oy, www.example.invalid", d1 = R.chance(1, 4) ? "" : randStr(R, 70), d2 = R.chance(1, 4) ? "" : randStr(R, 40);
+  bool progmem = k % 2 == 0;    // how the application gave the configuration strings: PROGMEM or RAM
+  std::string man = "Verif Oy, www.example.invalid", d1 = !progmem && R.chance(1, 4) ? "" : randStr(R, 70), d2 = !progmem && R.chance(1, 4) ? "" : randStr(R, 40);
+  if (progmem) { if (d1.empty()) d1 = "Port engine room"; if (d2.empty()) d2 = "Bilge"; }
   auto hx = [](const std::string &s) { return hex((const unsigned char *)s.data(), s.size()); };
-  exec("conf " + hx(man) + " " + hx(d1) + " " + hx(d2));
+  exec(std::string(progmem ? "confp " : "conf ") + hx(man) + " " + hx(d1) + " " + hx(d2));
   if (R.chance(1, 3)) exec("addhandler " + std::to_string(R.chance(1, 2) ? 127250UL : 130000UL));
 }
 
@@ -854,6 +907,7 @@ int main(int argc, char **argv) {
   for (int r = 0; r < rounds; r++) {
     newNode(R, flavor, 1); fieldExperiments(R); commandExperiments(R);
     newNode(R, flavor, 2); fieldExperiments(R); commandExperiments(R);
+    newNode(R, flavor, 1 + r % 2); burstExperiments(R, C.thorough);
     newNode(R, flavor, r % 2 ? 2 : 1); dispatchSweep(R);
     newNode(R, flavor, 2); pairCountSweep(R, C.thorough ? 1 : 9);
     newNode(R, flavor, (int)R.range(1, 3)); malformed(R, C.thorough ? 1500 : 400);
@@ -861,6 +915,7 @@ int main(int argc, char **argv) {
   }
   C.sample("per-field experiment: request 60928/126464/126996/126998 with each field matching / differing / carrying another attribute / truncated / repeated / paired with another field / unknown ids");
   C.sample("commands: 60928 every subset of {lower, upper, system instance}; 126998 descriptions ASCII and UCS-2 with read-back request; 126993 interval/offset boundaries and random 32/16-bit values");
+  C.sample("bursts: every ordered pair (random triples) of requests/commands for different PGNs to one device within one millisecond, then 1 ms polls: each must be answered; boundary value bytes (0xff, 0, masks) for every commanded 60928 field; configuration strings given as PROGMEM or RAM, first 126998 command writes one description");
   C.sample("dispatch: function codes 0..8 x {5 dedicated, transmit, unknown, proprietary PGNs} x addressed/broadcast/foreign; pair counts 0..255; malformed random bodies of every length");
   endCase();
   C.finish();
